@@ -41,12 +41,19 @@ LOAD_ASSUME = ["atomicity of hashmap.Compute sections (C15) and of the calls tab
 
 PERIODIC = dict(engine="periodic", scale_quick=3, scale_thorough=20, timeout_quick=600, timeout_thorough=3000, model=False)
 LIN = dict(engine="lin", scale_quick=8, scale_thorough=40, timeout_quick=900, timeout_thorough=6000)
+TBL = dict(engine="tbl", scale_quick=4, scale_thorough=40, timeout_quick=600, timeout_thorough=3000)
+TBL_RULE = ("tbl engine (the tie between the Coq model of the table's concurrency protocol, HashMapConc.v, and map.go): 60 schedules per unit of scale over 3-7 concurrent Compute (set / delete / add / keep) and Get calls on a table "
+            "prepared in one of three stages - 121 keys in 32 buckets so that an insert into a full chain must grow the table first; a 64-bucket table emptied to 3 keys so that deletes shrink it (or take the flag and give up); a handful of keys - "
+            "every call parks at the protocol's hook points (Compute: before/after the root bucket's Lock, before the newer-table check, after both checks; resize: before the CAS on the flag, before the copy, before each source bucket some call's key lives in, "
+            "before the publication, before the flag is cleared; Get: after the table load); exactly one goroutine is resumed at a time and runs to its next point, to its return, or until the runtime reports it blocked on a bucket lock or on the resize condition; "
+            "after every macro step every thread's position, the table length, the resizing flag, the binding each invoked function was given and each Get's value must be the model's, and at the end the content and Size; "
+            "implementation-only oracles: each function invoked exactly once, on the binding a sequential map (functions applied in invocation order) has, final Range/Size equal to that map, no deadlock")
 SCHED = dict(engine="sched", scale_quick=3, scale_thorough=30, timeout_quick=600, timeout_thorough=3000)
 DRAIN = dict(engine="drain", scale_quick=6, scale_thorough=30, timeout_quick=900, timeout_thorough=6000, model=False)
 
 PROPS = {
-    "C02": dict(engines=[LIN],
-                rule="lin engine: 1500 cases per unit of scale; 2-6 free-running goroutines x 2-6 operations (Set, SetIfAbsent, GetIfPresent, Compute/ComputeIfAbsent/ComputeIfPresent with "
+    "C02": dict(engines=[LIN, TBL], also_reports=["C02", "C15"],
+                rule=TBL_RULE + "; lin engine: 1500 cases per unit of scale; 2-6 free-running goroutines x 2-6 operations (Set, SetIfAbsent, GetIfPresent, Compute/ComputeIfAbsent/ComputeIfPresent with "
                      "write/invalidate/cancel, Invalidate) on 1-3 keys of one cache, unbounded or with MaximumSize 1-3 so that it evicts constantly, a churner goroutine resizing the table underneath; "
                      "invocation/response stamped with a logical clock, callbacks recording invocations and arguments, automatic removals recorded at the OnAtomicDeletion instant; "
                      "per key a Wing-Gong search for a linearization against the extracted sequential model; distinct_nontrivial = distinct (bounded, keys, goroutines, ops) shapes",
@@ -70,13 +77,14 @@ PROPS = {
                              "sync.Mutex, goroutine creation and the memory model of sync/atomic are modelled", "InvalidateAll and the 100-refusal caller-runs fallback are outside the model; readers are in the model (a reader that finds the read buffer full is covered by the theorem, the engine produces only buffered reads)"]),
     "C08": dict(engines=[LOAD], rule=LOAD_RULE, assumptions=LOAD_ASSUME),
     "C09": dict(engines=[LOAD], rule=LOAD_RULE, assumptions=LOAD_ASSUME),
-    "C15": dict(engines=[HMAP],
-                rule="hmap engine: (a) 6 sequential cases per unit of scale (size hints 0..3000), 1800-3300 operations each in fill/churn/drain/refill phases over 200-2000 keys with 15% of the keys "
+    "C15": dict(engines=[HMAP, TBL],
+                rule=TBL_RULE + "; hmap engine: (a) 6 sequential cases per unit of scale (size hints 0..3000), 1800-3300 operations each in fill/churn/drain/refill phases over 200-2000 keys with 15% of the keys "
                      "chosen to collide in one bucket under the table's current seed, Clear included; GOMAXPROCS(1) so that resize copies are sequential and the layout deterministic; every call replayed "
                      "on the extracted model with the table's own hashes; (b) 12 free-running rounds per unit of scale: 4-11 goroutines incrementing shared counters and inserting/deleting own keys while a reader "
                      "looks up stable keys and an iterator checks each stable key is yielded exactly once; (c) SWAR kernels on boundary and random words; "
                      "distinct_nontrivial = distinct (table length, phase) pairs reached",
-                assumptions=["per-table hash seeds (maphash) are inputs read from the implementation", "concurrent behaviour is checked by oracles on free-running executions, not by a theorem",
+                assumptions=["per-table hash seeds (maphash) are inputs read from the implementation", "the concurrency theorems (HashMapConcProofs.v) are about the protocol model: a table version is a key->binding store with one lock per root bucket (the layout inside a bucket chain is the sequential theorem's), a bucket's update, a bucket's copy and a Get's read of its key are one atomic step each, Clear and Range are not in the protocol model",
+                             "the tbl engine runs one goroutine at a time (every interleaving of the hook-to-hook macro steps is a schedule it can take; finer interleavings inside a macro step are exercised free-running only) and decides 'blocked' from the runtime's goroutine wait reasons (self-checked; the engine is skipped when the runtime words them differently)",
                              "resize copies run in one goroutine in the sequential part (GOMAXPROCS(1)); the parallel copy is exercised in the concurrent part only"]),
     "C16": dict(engines=[MPSC],
                 rule="mpsc engine: every (initial, maximum) capacity pair from {2..128} x {4..128}; sequential random pushes/pops crossing every growth step and back, with producers "
